@@ -13,4 +13,5 @@ if [ -n "$RUN_TESTS" ]; then
   (cd $WT && /venv/bin/python -m pytest -q -p no:cacheprovider --timeout=900 --continue-on-collection-errors tests/common tests/test_sourcecode.py tests/test_profiling.py 2>&1 | tail -2)
 fi
 echo "== check $PROP ($TIER) on patched tree"
-cd /verif && VERIF_REPO=$WT ./harness/check $PROP --tier $TIER 2>&1 | grep -E "VIOLATION|KNOWN|ok in|FAIL in" | head -5
+mkdir -p /tmp/seed_evidence /tmp/seed_replays
+cd /verif && VERIF_EVIDENCE_DIR=/tmp/seed_evidence VERIF_REPLAYS_DIR=/tmp/seed_replays VERIF_REPO=$WT ./harness/check $PROP --tier $TIER 2>&1 | grep -E "VIOLATION|KNOWN|ok in|FAIL in" | head -5
